@@ -207,3 +207,60 @@ func runC06BackendRefusal(c *Ctx, nh int) {
 	r.Require("refused_by_backend", 20)
 	r.Require("retried_completes_ok", 10)
 }
+
+// runC06PartCopy: UploadPartCopy ('PUT ?partNumber&uploadId' with x-amz-copy-source and no
+// body). The server may not implement it, but then it has to say so: an acknowledged part
+// holds the bytes of the source, never the (empty) request body.
+func runC06PartCopy(c *Ctx) {
+	r := c.R
+	for _, kind := range drv.AllKinds {
+		s := mustServer(drv.Opts{Kind: kind})
+		bucket := "mp-bucket"
+		if drv.IsSingle(kind) {
+			bucket = drv.SingleName
+		} else if cr := s.CreateBucket(bucket); cr.Status != 200 {
+			panic("harness: create bucket: " + cr.String())
+		}
+		src := bytes.Repeat([]byte("source bytes "), 40)
+		if p := s.Put(bucket, "pc/src", src, nil); p.Status != 200 {
+			panic("harness: put: " + p.String())
+		}
+		for ci, hdr := range []struct {
+			name string
+			h    []string
+		}{
+			{"whole-object", []string{"x-amz-copy-source", "/" + bucket + "/pc/src"}},
+			{"range", []string{"x-amz-copy-source", "/" + bucket + "/pc/src", "x-amz-copy-source-range", "bytes=0-99"}},
+		} {
+			r.Eval(1)
+			key := fmt.Sprintf("pc/dst-%d", ci)
+			id, ir := mpInitiate(s, bucket, key, nil)
+			if id == "" {
+				r.Violation(sig("C06", backendClass(kind), "initiate-failed", ""), ir.String(), nil)
+				continue
+			}
+			want := src
+			if hdr.name == "range" {
+				want = src[:100]
+			}
+			resp := mpUploadPart(s, bucket, key, id, 1, nil, drv.H(hdr.h...))
+			r.Count("part_copies", 1)
+			r.Distinct(fmt.Sprintf("%s|part-copy|%s|%d", kind, hdr.name, resp.Status))
+			if resp.Status >= 200 && resp.Status < 300 {
+				pr, lr := mpListParts(s, bucket, key, id)
+				if pr == nil || len(pr.Parts) != 1 || pr.Parts[0].Size != int64(len(want)) || pr.Parts[0].ETag != drv.QuotedMD5(want) {
+					r.Violation(sig("C06", backendClass(kind), "part-copy-acknowledged-without-the-source-bytes", hdr.name),
+						fmt.Sprintf("%s: UploadPartCopy (%s) of a %d-byte source was answered %s; ListParts: %s %+v; an acknowledged copied part holds the source's bytes", kind, hdr.name, len(src), resp, lr, pr),
+						map[string]interface{}{"backend": kind, "headers": hdr.h, "response": respDesc(resp)})
+				}
+			} else {
+				r.Count("part_copies_refused", 1)
+				if pr, _ := mpListParts(s, bucket, key, id); pr == nil || len(pr.Parts) != 0 {
+					r.Violation(sig("C06", backendClass(kind), "pending-upload-changed", "refused-part-copy"), fmt.Sprintf("%s: refused UploadPartCopy left parts behind: %+v", kind, pr), nil)
+				}
+			}
+			mpAbort(s, bucket, key, id)
+		}
+		s.Close()
+	}
+}
